@@ -116,12 +116,13 @@ void write_tape_file(const std::string &path, const std::vector<uint32_t> &t, co
 	f << "\n";
 }
 
-bool read_tape_file(const std::string &path, std::vector<uint32_t> &out, Bytes &rawbytes, bool &is_bytes)
+bool read_tape_file(const std::string &path, std::vector<uint32_t> &out, Bytes &rawbytes, bool &is_bytes, bool *is_raw)
 {
 	std::ifstream f(path, std::ios::binary);
 	if (!f) return false;
 	std::string all((std::istreambuf_iterator<char>(f)), std::istreambuf_iterator<char>());
-	if (all.compare(0, 6, "TAPE1\n") != 0) {
+	if (is_raw) *is_raw = all.compare(0, 6, "TAPER\n") == 0;
+	if (all.compare(0, 6, "TAPE1\n") != 0 && all.compare(0, 6, "TAPER\n") != 0) {
 		is_bytes = true; rawbytes.assign(all.begin(), all.end()); return true;
 	}
 	is_bytes = false;
@@ -154,9 +155,10 @@ int harness_main(int argc, char **argv, PropDef &def)
 	std::string mode = argv[1];
 	if (mode == "replay") {
 		if (argc < 3) return 2;
-		std::vector<uint32_t> v; Bytes raw; bool is_bytes = false;
-		if (!read_tape_file(argv[2], v, raw, is_bytes)) { fprintf(stderr, "cannot read %s\n", argv[2]); return 2; }
+		std::vector<uint32_t> v; Bytes raw; bool is_bytes = false, is_raw = false;
+		if (!read_tape_file(argv[2], v, raw, is_bytes, &is_raw)) { fprintf(stderr, "cannot read %s\n", argv[2]); return 2; }
 		Tape t = is_bytes ? Tape(raw.data(), raw.size()) : Tape(v);
+		t.rawmode = is_raw;
 		CaseResult r = def.run(t);
 		printf("%s\n", r.render.c_str());
 		if (!r.ok) { printf("REPLAY-FAIL signature=%s why=%s\n", r.signature.c_str(), r.why.c_str()); return 1; }
@@ -211,13 +213,14 @@ int harness_main(int argc, char **argv, PropDef &def)
 		// shrink with the smallest failing case found so far
 		if (have_fail && std::chrono::duration<double>(std::chrono::steady_clock::now() - tfail).count() > shrink_budget) return;
 		if (lfd >= 0) {
-			std::string s = "TAPE1\n";
+			std::string s = "TAPER\n";
 			char b[16];
 			for (uint32_t x : raw) { snprintf(b, sizeof b, "%u ", x); s += b; }
 			s += "\n";
 			if (pwrite(lfd, s.data(), s.size(), 0) >= 0) { if (ftruncate(lfd, (off_t)s.size())) {} }
 		}
 		Tape t(raw);
+		t.rawmode = true;
 		CaseResult r = def.run(t);
 		if (!have_fail) st.add(r, t);
 		if (!r.ok) {
